@@ -283,8 +283,7 @@ let run_d (c : 'a codec) (input : M.n list) : string =
   | M.DPanic x -> "PANIC " ^ site_name x
   | M.DFuel -> "PANIC model-out-of-fuel"
 
-let do_d entry hexs =
-  let input = case_hex hexs in
+let do_d_bytes entry input =
   match entry with
   | "Dns" -> run_d codec_dns input
   | "RR" -> run_d codec_rr input
@@ -296,6 +295,7 @@ let do_d entry hexs =
   | "QType" -> run_d (codec_code M.dec_QType) input
   | "QClass" -> run_d (codec_code M.dec_QClass) input
   | _ -> "BAD-CASE entry"
+let do_d entry hexs = do_d_bytes entry (case_hex hexs)
 
 (* ---------- W cases: the reference decoder Spec/Wire.v on the same bytes ---------- *)
 let do_w entry hexs =
@@ -308,6 +308,37 @@ let do_w entry hexs =
   | "Flags" -> show c_flags (M.spec_Flags input)
   | "DomainName" -> show (c_name false) (M.spec_DomainName input)
   | _ -> "BAD-CASE entry"
+
+(* ---------- A cases: in-process enumeration with a digest ---------- *)
+let fnv1a (h : int64 ref) (str : string) =
+  String.iter (fun c -> h := Int64.mul (Int64.logxor !h (Int64.of_int (Char.code c))) 0x00000100000001b3L) str
+let strip_cost (line : string) : string =
+  let n = String.length line in
+  let rec find i = if i + 6 > n then -1 else if String.sub line i 6 = " cost=" then i else find (i + 1) in
+  let i = find 0 in
+  if i < 0 then line
+  else begin
+    let j = ref (i + 6) in
+    while !j < n && line.[!j] <> ' ' do incr j done;
+    String.sub line 0 i ^ String.sub line !j (n - !j)
+  end
+let starts_with p s = String.length s >= String.length p && String.sub s 0 (String.length p) = p
+let do_a entry hexs ks =
+  let prefix = case_hex hexs in
+  let k = int_of_string ks in
+  if k > 2 then "BAD-CASE A needs k <= 2" else begin
+    let total = int_of_float (256. ** float_of_int k) in
+    let ok = ref 0 and err = ref 0 and pan = ref 0 in
+    let h = ref 0xcbf29ce484222325L in
+    for v = 0 to total - 1 do
+      let suffix = List.init k (fun i -> n_of_int ((v lsr (8 * (k - 1 - i))) land 255)) in
+      let line = do_d_bytes entry (prefix @ suffix) in
+      if starts_with "OK " line then incr ok else if starts_with "ERR " line then incr err else incr pan;
+      let view = if starts_with "PANIC" line then "PANIC" else strip_cost line in
+      fnv1a h view; fnv1a h "\n"
+    done;
+    Printf.sprintf "ok=%d err=%d panic=%d digest=%016Lx" !ok !err !pan !h
+  end
 
 (* ---------- E cases ---------- *)
 let enc_line (r : M.n list M.res) =
@@ -508,6 +539,10 @@ let rec run_case (line : string) : string =
          (match String.split_on_char ' ' rest with
           | [entry; h] -> do_d entry h
           | _ -> "BAD-CASE D")
+       | "A" ->
+         (match String.split_on_char ' ' rest with
+          | [entry; h; k] -> do_a entry h k
+          | _ -> "BAD-CASE A")
        | "W" ->
          (match String.split_on_char ' ' rest with
           | [entry; h] -> do_w entry h
